@@ -230,6 +230,11 @@ func (r *Runner) expandErr(err error) {
 	case errMsg == "invalid indirect expansion":
 		// TODO: These errors are treated as fatal by bash.
 		// Make the error type reflect that.
+	case errMsg == "division by zero", errMsg == "exponent less than 0":
+		// Arithmetic errors do not exit; the current command fails.
+		// TODO: like above, make the error type reflect that.
+		r.expandFailed = true
+		return
 	default:
 		return // other cases do not exit
 	}
@@ -445,7 +450,13 @@ func (r *Runner) cmd(ctx context.Context, cm syntax.Command) {
 			i += len(als.args)
 		}
 		r.lastExpandExit = exitStatus{}
+		r.expandFailed = false
 		fields := r.fields(args...)
+		if r.expandFailed {
+			// e.g. "echo $((1/0))"; the command is not run.
+			r.exit.code = 1
+			break
+		}
 		if len(fields) == 0 {
 			for _, as := range cm.Assigns {
 				name := as.Name.Value
@@ -458,6 +469,11 @@ func (r *Runner) cmd(ctx context.Context, cm syntax.Command) {
 				prev.Local = false
 
 				name, vr := r.assignVal(name, prev, as, "")
+				if r.expandFailed {
+					// e.g. "foo=$((1/0))"; the variable is not assigned.
+					r.exit.code = 1
+					break
+				}
 				r.setVarWithIndex(prev, name, as.Index, vr, as.Append && as.Value != nil && vr.Kind == expand.String)
 
 				if !tracingEnabled {
@@ -510,10 +526,15 @@ func (r *Runner) cmd(ctx context.Context, cm syntax.Command) {
 			r.setVar(name, vr)
 		}
 
-		trace.call(fields[0], fields[1:]...)
-		trace.newLineFlush()
+		if r.expandFailed {
+			// e.g. "foo=$((1/0)) cmd"; the command is not run.
+			r.exit.code = 1
+		} else {
+			trace.call(fields[0], fields[1:]...)
+			trace.newLineFlush()
 
-		r.call(ctx, cm.Args[0].Pos(), fields)
+			r.call(ctx, cm.Args[0].Pos(), fields)
+		}
 		for _, restore := range restores {
 			r.setVar(restore.name, restore.vr)
 		}
